@@ -7,7 +7,7 @@ LEVEL = "exploration"
 RULE = ("tank family R-p1-J1-[tank link]-T(-p3-J2): tank shape {cylinder, volume curve wider than the limits, volume curve ending "
         "at max_level} x init {mid, near min, near max} x tank link {pipe, reversed pipe, CV into tank, CV out of tank, pump into "
         "tank} x second tank link {no, yes} x demand pattern {fill, drain, fill-then-drain, saw-tooth} x hydraulic step {1h, 15min} x "
-        "tank leak {no, yes}, fully crossed (thorough adds diameters, limits and a second tank); a second tank joined directly to the first by a pipe, registered before / after it; run + geometry edit (curve points in place, new curve, diameter) + reset + second run (judged); report 'ALL'. oracle on consecutive "
+        "tank leak {no, yes}, fully crossed (thorough adds diameters, limits and a second tank); a second tank joined directly to the first by a pipe, registered before / after it; a second tank link that starts closed and is opened during the run; run + geometry edit (curve points in place, new curve, diameter) + reset + second run (judged); report 'ALL'. oracle on consecutive "
         "solved steps: V(l_{i+1})-V(l_i) = demand_i*dt; level_0 = init; limits with 2 s of flow slack; at min no discharge, at max no "
         "filling. non-trivial: the tank level changed by > 1 cm and (reached a limit or reversed direction)")
 
@@ -85,6 +85,14 @@ def cases(tier):
         s["controls"] = [{"kind": "time", "t": k * 3600 + 3000, "link": "px", "value": "CLOSED" if k % 2 == 0 else "OPEN", "prio": prio, "name": "u%d" % k}
                          for k in range(10)]
         s["id"] = dict(s["id"], user_controls_priority=prio)
+        out.append(s)
+    # a second tank link that is CLOSED when the run starts and opened by a time control at 2 h / 5 h: the tank's limits hold
+    # for it from then on, like for any other link
+    for shape, init, tlink, pat, t_open in itertools.product(("cyl", "vc_wide"), ("mid", "min", "max"), ("pipe", "rpipe", "cv_in"), sorted(PATTERNS), (2, 5)):
+        s = tank_spec(shape, init, tlink, False, pat, 3600, False)
+        s["links"].append(P("p5", "J1", "T", L=250.0, D=0.2, status="CLOSED"))
+        s["controls"] = [{"kind": "time", "t": t_open * 3600, "link": "p5", "value": "OPEN", "name": "open_p5"}]
+        s["id"] = dict(s["id"], late_link_opened_at=t_open)
         out.append(s)
     # edit-then-rerun: the model is simulated (and the tank volume read through the API), the tank geometry is edited - the
     # points of its volume curve in place, a new curve assigned, or the diameter of a cylinder - the model is reset and
